@@ -59,4 +59,15 @@ def step (s : State) : Op → Verdict
     if !s.crates.contains c then .either s
     else .accept { s with pairs := s.pairs.filter (·.1 != c) }
 
+/-- The state after a call with verdict `v` that succeeded (`true`) or threw (`false`);
+`none` when the outcome contradicts the verdict. -/
+def Verdict.next (v : Verdict) (s : State) (succeeded : Bool) : Option State :=
+  match v, succeeded with
+  | .accept s', true => some s'
+  | .accept _, false => none
+  | .reject, true => none
+  | .reject, false => some s
+  | .either s', true => some s'
+  | .either _, false => some s
+
 end EngineModel.Spec.Members
